@@ -1,15 +1,15 @@
 #!/bin/sh
 # thor.sh [ids...] : runs the thorough tier of the given checks one after the other against /repo, with outputs and evidence
-# under /tmp/thor2 (VERIF_SCRATCH) so that the committed quick evidence stays; status in /verif/out/tmp/thor.txt
+# (the evidence files are rewritten: re-run the quick tier afterwards); status in /verif/out/tmp/thor.txt
 cd /verif
 ids=${@:-$(python3 -c "import json;print(' '.join(c['property_id'] for c in json.load(open('MANIFEST.json'))['checks']))")}
 out=/verif/out/tmp/thor.txt
 echo "== thorough $(date)" >> $out
 for p in $ids; do
   s=$(date +%s)
-  VERIF_SCRATCH=/tmp/thor2 timeout 5400 ./check $p --tier thorough > /verif/out/tmp/thor_$p.log 2>&1
+  timeout 5400 ./check $p --tier thorough > /verif/out/tmp/thor_$p.log 2>&1
   rc=$?
   echo "$p exit $rc $(( $(date +%s) - s ))s" >> $out
-  rm -rf /tmp/thor2/out/$p
+  rm -rf /verif/out/$p/thorough
 done
 echo "== end $(date)" >> $out
